@@ -74,8 +74,9 @@ def main():
         meta['detected'] = results[a.prop]['exit'] == 1
         out = os.path.join(V, 'seeded', a.name)
         os.makedirs(out, exist_ok=True)
-        shutil.copy(a.patch, os.path.join(out, 'patch.diff'))
-        shutil.copy(a.demo, os.path.join(out, 'demo.py'))
+        for src, dst in ((a.patch, 'patch.diff'), (a.demo, 'demo.py')):
+            if os.path.realpath(src) != os.path.realpath(os.path.join(out, dst)):
+                shutil.copy(src, os.path.join(out, dst))
         json.dump(meta, open(os.path.join(out, 'meta.json'), 'w'), indent=1, default=str)
         print(json.dumps({k: meta[k] for k in ('name', 'demo_clean_exit', 'demo_patched_exit', 'detected')}, indent=0))
         for p, rr in results.items():
